@@ -73,7 +73,7 @@ _hist_rule = ('cases: random histories (4-40 ops) over one Number (finite test n
               'the end), push iterators All/Values/Backward stopped after k items, AsString, v1 NumDigits; versions rotate. Non-trivial: the history '
               'contains pulls, runs, limits, starts or backward traversals; distinct = distinct (version, args).')
 PROPS['C04'] = dict(
-    theorem='C04_at, C04_scan, C04_pulls, C04_history_independent, C04_v3_iterator, C04_limit_at, C04_first_n, C04_limit_iterator, C04_full_iterator, C04_listing_consecutive, C04_scan_is_model, C04_at_is_model, C04_full_iterator_of_number, C04_full_iterator_of_limited_number, C04_limited_iterator_pulls (Properties/C04.v)',
+    theorem='C04_at, C04_scan, C04_pulls, C04_history_independent, C04_v3_iterator, C04_limit_at, C04_first_n, C04_limit_iterator, C04_full_iterator, C04_listing_consecutive, C04_scan_is_model, C04_at_is_model, C04_full_iterator_of_number, C04_full_iterator_of_limited_number, C04_limited_iterator_pulls, C04_pulls_are_model, C04_model_pulls (Properties/C04.v)',
     functional=True,
     level_text='Theorems for every digit string D, every oracle for memoizer.wait satisfying the wait contract (so every block size, timing and '
                'interleaving) and every history: At = D[i]; Scan/ScanValues with early exit = the first k positions of [idx, limit); any sequence of '
@@ -174,7 +174,7 @@ PROPS['C09'] = dict(
 )
 
 PROPS['C06'] = dict(
-    theorem='C06_readahead, C06_block_size_ok, C06_in_order, C06_only_producer, C06_never_after_end, C06_demand_scan, C06_demand_pull, C06_bound (Properties/C06.v)',
+    theorem='C06_readahead, C06_block_size_ok, C06_in_order, C06_only_producer, C06_never_after_end, C06_demand_scan, C06_demand_pull, C06_demand_view_scan, C06_bound (Properties/C06.v)',
     functional=False,
     level_text='Theorems over the memoizer\'s transition system (one producer, any number of readers, every interleaving, any block size B > 0): in every reachable state the '
                'source has been consulted for at most imax + B positions (imax = largest index any wait call carried) and for none before the first wait call; along every trace '
@@ -192,7 +192,7 @@ PROPS['C06'] = dict(
 )
 
 PROPS['C15'] = dict(
-    theorem='C15_first_n_stable, C15_find_first_stable, C15_finite_terminates, C15_consulted, C15_stops_at_nth_match (Properties/C15.v)',
+    theorem='C15_first_n_stable, C15_find_first_stable, C15_finite_terminates, C15_consulted, C15_stops_at_nth_match, C15_search_stops_at_answer (Properties/C15.v)',
     functional=True,
     level_text='Theorems: the first n matches of a text are those of any prefix that already contains them (extending the text cannot change them), so a search that returns at the '
                'n-th match needs no digit beyond its end; every search on a finite text returns; digits consulted <= largest waited index + B in every schedule. The statement is '
